@@ -85,6 +85,14 @@ def oracle(cases, impl):
             if out != want:
                 fails.append(dict(name="groupname-" + cid, case=dict(desc=c[1], impl=out),
                                   what="a key of namespace/partition %s must be held by exactly its own replica group (%s), got %s" % (c[1], want, out)))
+        elif kind == "U":
+            res, _, ow = out.partition(" owners=")
+            owners = ow.split(",") if ow else []
+            hosted = set(c[2].split(","))
+            must_reject = len(set(owners)) != 1 or any(o not in hosted for o in owners)
+            if (res == "served") == must_reject:
+                fails.append(dict(name="mgetpartial-" + cid, case=dict(keys=c[3], hosted=c[2], impl=out),
+                                  what="MGET on a node hosting partitions {%s}: the keys' owners (client SDK) are %s, the command was %s — it must be answered iff one hosted partition owns every key" % (c[2], ow, res)))
         elif kind == "B":
             nkeys = len(c[2].split(","))
             if out not in ("err err", "1 1") or (nkeys <= 5001 and out != "1 1") or (nkeys > 5001 and out != "err err"):
